@@ -525,6 +525,9 @@ static void cmd_params(int sid, uint32_t k, uint32_t r, uint32_t len, uint32_t m
 		if (s->role == 1) {
 			s->enc_tab = calloc(s->n, sizeof(void *)); s->enc_libslot = calloc(s->n, sizeof(int));
 			for (uint32_t i = 0; i < k; i++) s->enc_tab[i] = s->cw[i];
+			/* entries of repair symbols that were not built yet hold garbage (the application has not filled them):
+			 * an encoder that looks at entries it does not need dereferences an unmapped address */
+			for (uint32_t i = k; i < s->n; i++) s->enc_tab[i] = (void *)(uintptr_t)(0x10 + 8 * (i % 64));
 		} else {
 			int ok = 1;
 			if (s->codec == 3 || s->codec == 5) ok = fill_codeword_binary(s);
